@@ -102,6 +102,14 @@ class odict(dict):
         if key not in self._keys:
             self._keys.append(key)
 
+    def __ior__(self, other):
+        """
+        x |= other  as update so key order is tracked (dict.__ior__ bypasses
+        __setitem__)
+        """
+        self.update(other)
+        return self
+
     def __getnewargs__(self):
         """
         Needed to force __new__ which creates _keys.
